@@ -132,7 +132,9 @@ func canon(v any) string {
 func looseFr(x jp.Expr) string     { return canon(projectL(x, true)) }
 func looseTr(sc *jp.Script) string { return canon(shapeOfL(sc, true)) }
 
-func runOne(c *tcase) *event {
+func runOne(c *tcase) *event { return runOneT(c, 10*time.Second) }
+
+func runOneT(c *tcase, limit time.Duration) *event {
 	ev := &event{API: c.API, B: c.B, Src: c.Src, Fr: []any{}, Tr: noShape, E2: -1, S: []int{}}
 	text := bstr(c.B)
 	done := make(chan struct{})
@@ -182,8 +184,8 @@ func runOne(c *tcase) *event {
 	}()
 	select {
 	case <-done:
-	case <-time.After(3 * time.Second):
-		return &event{API: c.API, B: c.B, Src: c.Src, R: 3, M: "no result after 3s", Fr: []any{}, Tr: noShape, E2: -1, S: []int{}}
+	case <-time.After(limit):
+		return &event{API: c.API, B: c.B, Src: c.Src, R: 3, M: "no result after " + limit.String(), Fr: []any{}, Tr: noShape, E2: -1, S: []int{}}
 	}
 	return ev
 }
@@ -209,6 +211,8 @@ func readCases() []*tcase {
 func execAll() {
 	cs := readCases()
 	out := make([][]byte, len(cs))
+	var slowMu sync.Mutex
+	var slow []int
 	var wg sync.WaitGroup
 	nw := runtime.NumCPU()
 	if nw > 8 {
@@ -219,7 +223,13 @@ func execAll() {
 		go func(w int) {
 			defer wg.Done()
 			for i := w; i < len(cs); i += nw {
-				b, err := json.Marshal(runOne(cs[i]))
+				ev := runOne(cs[i])
+				if ev.R == 3 { // on a loaded machine a slow case is not a hang: it is run again alone at the end
+					slowMu.Lock()
+					slow = append(slow, i)
+					slowMu.Unlock()
+				}
+				b, err := json.Marshal(ev)
 				if err != nil {
 					fmt.Fprintln(os.Stderr, "marshal:", err)
 					os.Exit(2)
@@ -229,6 +239,9 @@ func execAll() {
 		}(w)
 	}
 	wg.Wait()
+	for _, i := range slow {
+		out[i], _ = json.Marshal(runOneT(cs[i], 60*time.Second))
+	}
 	wr := bufio.NewWriterSize(os.Stdout, 1<<20)
 	for _, b := range out {
 		wr.Write(b)
@@ -247,7 +260,7 @@ var docTexts = []string{
 var docScripts = []string{"(@.name == 'Pete')", "(@.x == Nothing)", "(@.x has false)", "(@.x exists false)", "(@.text ~= /(?i)expected/ && !(@.text ~= /(?i)notexpected/))"}
 
 var alphaFull = []byte("$@.*[]()'\"\\,:?!=<>&|~+-/ 01aux;{}#\x00\n\t\x7f\x80\xff")
-var alphaSmall = []byte("$@.*[]()'\"\\,:?!=<& -/ 0a\x00\x80")
+var alphaSmall = []byte("$@.*[]()'\"\\,:?!=<& -/ 0a\x00\t\x80")
 
 func mutate(nbases int, alpha []byte, seed int64) {
 	cs := readCases()
